@@ -749,7 +749,17 @@ func (vc *VC) execSlice(fr *frame, n *Node, x *ssa.Slice) {
 			mx = vc.toI(vc.value(fr, n, x.Max))
 		}
 		vc.safety(fr, n, "slice", "slice bounds in range", x.Pos(), and(e.sle(z, lo), e.sle(lo, hi), e.sle(hi, mx), e.sle(mx, sCap(a.T))))
-		vc.defVal(n, x, fmt.Sprintf("(mk-slice %s %s %s %s %s)", sArr(a.T), e.add(sOff(a.T), lo), e.sub(hi, lo), e.sub(mx, lo), sFld(a.T)))
+		term := fmt.Sprintf("(mk-slice %s %s %s %s %s)", sArr(a.T), e.add(sOff(a.T), lo), e.sub(hi, lo), e.sub(mx, lo), sFld(a.T))
+		if _, syntactic := splitApp(a.T, "mk-slice", 5); syntactic || lo == "0" {
+			vc.defVal(n, x, term)
+		} else {
+			// opaque name plus an idx-triggered lemma: element j of s[lo:hi] is element lo+j of s
+			// (a consequence of the definition of idx; it lets quantified facts about s reach the sub-slice)
+			name := vc.decl(x.Name(), "Slice")
+			vc.emit(fmt.Sprintf("(assert (= %s %s))", name, term))
+			vc.emit(fmt.Sprintf("(assert (forall ((j Int)) (! (= %s %s) :pattern (%s))))", e.elemPtr(name, "j"), e.elemPtr(a.T, e.add(lo, "j")), e.elemPtr(name, "j")))
+			vc.bind(n, x, name)
+		}
 	case *types.Basic: // string
 		hi := fmt.Sprintf("(strlen %s)", a.T)
 		if x.High != nil {
